@@ -58,8 +58,8 @@ class CurrentNodeUsedQuoteColumn(AnalyzerRecursionASTToListBase):
                     quote_column_list.extend(cls.handle(column))
             return quote_column_list
 
-        # 不递归处理子查询
-        if isinstance(node, core.ASTSubQueryExpression):
+        # 不递归处理子查询（WITH 子句中的临时表也是子查询）
+        if isinstance(node, (core.ASTSubQueryExpression, core.ASTWithClause)):
             return []
 
         return cls.default_handle_node(node)
